@@ -1,15 +1,24 @@
 """C09 — the in-memory filespace stays consistent under concurrent use.
 
 Theorems: lean/Goat/Props/C09.lean about the lock-granular model lean/Goat/Model/MemFSConc.lean
-(dir_inv, create_once, file_values, no_deadlock, the three old lock orders deadlock,
-distinct_paths_commute_partial).
+(dir_inv, create_once, file_values, no_deadlock, the three old lock orders deadlock;
+distinct_paths_commute: operations on independent paths - WriteFile / MkdirAll / Remove / RemoveAll / Copy of files
+and directory trees / reads, any number of threads, every schedule of their critical sections - leave the heap that
+represents the tree of the SEQUENTIAL model (C01, Goat.MemFS.step) after the same operations in ANY order, with the
+sequential results, hence a run of the specification FS.Step; distinct_paths_progress; concurrent_mkdir_shared_parent;
+interleaving_refines_some_order_false: on RELATED paths the operations are not linearisable (WriteFile a/b/f vs
+Remove a/b); micro_effects_commute = the former distinct_paths_commute_partial).
 
 Tie of the model to /repo on every run:
   1. facts     go/ast: the lock brackets of every Dir/File method and the position of the data-lock
                waits relative to the directory lock in WriteFile/Writer/copyDir (harness memfsconc facts);
+     tie       the synchronisation skeleton of every memfs function as Lean data (Goat/Tie/ExtractedC09.lean,
+               regenerated from the tree under test) = the model's action table (Goat/Model/MemFSConcActs.lean):
+               tie_* theorems of Goat/Tie/C09.lean, by decide, one per critical section BY NAME;
   2. replays   the real memfs is driven through the verifhook yield points by schedules (corpus +
-               generated); the same schedule lines drive the Lean transition system; compared per step:
-               where each goroutine parks / blocks / which result it gets, and the final tree;
+               generated: holder, random, shared-ancestor creation race, siblings at every yield point); the same
+               schedule lines drive the Lean transition system; compared per step: where each goroutine parks /
+               blocks / which result it gets, and the final tree;
   3. stress    2..32 goroutines, GOMAXPROCS 1..16, injected Gosched, watchdog; every recorded history is
                decided by the Lean monitor (rules R0-R5 of Driver/MemFSConc.lean);
   4. -race     the same stress under the race detector (supporting evidence for the atomicity assumption).
@@ -26,25 +35,42 @@ import lib
 META = dict(
     level_claimed=dict(
         category="proof",
-        text="PARTIAL. Lean 4 theorems over all numbers of threads, all programs and all schedules of a lock-granular "
-             "model of memfs (one atomic action per critical section of the Go code): directory invariant in every "
-             "interleaving, exactly one winner among concurrent creations of a name, files hold complete values and "
-             "readers see only those, no deadlock in the repaired lock order under an ordered-handle discipline, "
-             "reachable deadlocks for the three pre-fix lock orders, order-independence of operations on unrelated paths "
-             "for the path-map semantics of the critical sections.  That the Go critical sections are atomic (Go memory "
-             "model, nothing outside the modelled sections races) is an assumption supported by go/ast lock facts and a "
-             "-race stress; the model is tied to the code by gated schedule replays through verifhook yield points and by "
-             "a Lean history monitor over stress runs of the real filespace.",
+        text="PARTIAL (only in the tie of the model to the Go code).  Lean 4 theorems over all numbers of threads, all "
+             "programs and all schedules of a lock-granular model of memfs (one atomic action per critical section of the "
+             "Go code): directory invariant in every interleaving, exactly one winner among concurrent creations of a name, "
+             "files hold complete values and readers see only those, no deadlock in the repaired lock order under an "
+             "ordered-handle discipline, reachable deadlocks for the three pre-fix lock orders; distinct_paths_commute at the "
+             "level of the heap: operations on pairwise independent paths (WriteFile, MkdirAll, Remove, RemoveAll, Copy of a "
+             "file or a directory tree, ReadFile, ReadDir, IsExist/IsFile/IsDir; creating operations may share missing "
+             "ancestors), started on any forest-shaped heap, leave after EVERY interleaving of their critical sections the "
+             "heap that represents the tree the sequential model of C01 reaches in ANY order of the operations, every "
+             "operation answers its sequential result, through C01's refinement the outcome is a run of the abstract "
+             "specification FS.Step, and such a batch never gets stuck; the shared-ancestor creation race (nobody fails, the "
+             "chain is created once, all leaves exist); and the negative result that operations on RELATED paths are not "
+             "linearisable (WriteFile a/b/f vs Remove a/b both succeed and the file vanishes - confirmed on the real code by a "
+             "gated replay; outside what the property claims).  That the Go critical sections are atomic (Go memory model, "
+             "nothing outside the modelled sections races) is an assumption supported by the structural tie (go/ast "
+             "skeletons of every memfs function = the model's action table, by decide) and a -race stress; the model is tied "
+             "to the code by gated schedule replays through verifhook yield points (incl. the enumerated shared-ancestor and "
+             "sibling families, compared step by step) and by a Lean history monitor over stress runs of the real filespace.",
         design_ref="DESIGN.md 3 C09"),
     level_note="Trusted: Lean kernel (axioms propext/Classical.choice/Quot.sound only); the hand-written lock-granular "
-               "model; sync.Mutex/RWMutex semantics as modelled (blocking = disabled step; writer preference of RWMutex "
-               "is not modelled, it only removes enabled steps); Go memory model + 'nothing outside the modelled critical "
-               "sections races' (facts + -race stress); the gate scheduler, the history monitor's rules and parsers; "
-               "distinct_paths_commute is proved for the path-map effects, its refinement to the heap is checked by the "
-               "monitor (final tree = union of successful operations), not proved.  File.Size()/File.ModTime() (unsynchronised "
-               "metadata reads through Lstat) are outside what the property's observables need and outside the default stress.",
-    technique="Lean 4 proof (invariants over a labelled transition system, all schedules) + gated schedule replay + "
-              "stress with Lean history monitor + race detector",
+               "model and its action table; sync.Mutex/RWMutex semantics as modelled (blocking = disabled step; writer "
+               "preference of RWMutex is not modelled, it only removes enabled steps); Go memory model + 'nothing outside the "
+               "modelled critical sections races' (structural tie + lock facts + -race stress); the gate scheduler, the "
+               "history monitor's rules and parsers.  distinct_paths_commute is now proved down to the heap (forest shape: "
+               "every object has at most one parent entry; each critical section is one micro effect on the abstract tree; "
+               "simulation invariant over all schedules) and linked to C01's sequential model and specification; what it "
+               "assumes: paths reach memfs reduced and non-empty, a copy's source and destination unrelated, no stream "
+               "handle is open during the batch (streams are the subject of file_values / no_deadlock), the batch starts "
+               "from a quiescent heap.  The structural tie is syntactic (go/ast without type information, calls matched by "
+               "name and arity, held-regions per function; the hand-over of dataMU through a stream handle is stated in the "
+               "table, not extracted).  File.Size()/File.ModTime() (unsynchronised metadata reads through Lstat) are outside "
+               "what the property's observables need and outside the default stress.",
+    technique="Lean 4 proof (invariants and a simulation invariant over a labelled transition system, all schedules; "
+              "refinement to the sequential model and specification of C01) + structural tie (go/ast synchronisation "
+              "skeletons = model action table, by decide) + gated schedule replay with enumerated families "
+              "(shared-ancestor creation races, siblings at every yield point) + stress with Lean history monitor + race detector",
 )
 
 # what the model assumes about where locks are taken (output of `memfsconc facts`)
@@ -120,6 +146,143 @@ def _facts(ctx, go):
     return bad
 
 
+EXTRACTED = os.path.join(lib.LEAN, "Goat", "Tie", "ExtractedC09.lean")
+TIE_MODULE = "Goat.Tie.C09"
+
+
+def _leanfacts_text(ctx, go, repo):
+    """the synchronisation skeletons of package memfs of `repo` as Lean source (harness memfsconc leanfacts)"""
+    rc, out = ctx.capture([go, "leanfacts", repo])
+    if rc != 0 or "namespace Goat.Tie.ExtractedC09" not in out:
+        ctx.fatal("skeleton extraction failed: " + out[-800:])
+    return out
+
+
+def _install_extracted(text):
+    """write lean/Goat/Tie/ExtractedC09.lean (only if it changed; atomically)"""
+    old = open(EXTRACTED).read() if os.path.exists(EXTRACTED) else None
+    if old != text:
+        tmp = EXTRACTED + ".tmp%d" % os.getpid()
+        open(tmp, "w").write(text)
+        os.replace(tmp, EXTRACTED)
+
+
+def _lean(ctx, go):
+    """regenerate the extracted skeletons from the repository under test, then build and audit the theorems of
+    Props/C09 and the tie theorems.  The extracted file lives in the shared lake project: if another run (a mutant
+    run of another worker) replaced it while we were building, generate and build again."""
+    text = _leanfacts_text(ctx, go, ctx.repo)
+    failed = []
+    for attempt in range(4):
+        _install_extracted(text)
+        ctx.obligations = []
+        failed = ctx.lean_obligations(extra_modules=[TIE_MODULE])
+        if open(EXTRACTED).read() == text:
+            break
+        ctx.notes.append("ExtractedC09.lean was replaced by a concurrent run during the Lean build; rebuilt")
+    else:
+        ctx.fatal("ExtractedC09.lean keeps being replaced by concurrent runs")
+    ties = [o for o in ctx.obligations if o["name"].startswith("Goat.Tie.C09.")]
+    # a tie that fails by itself (an error at its own line) first: it names what moved in the code
+    failed.sort(key=lambda o: (not o["reason"].startswith("line "), not o["name"].startswith("Goat.Tie.C09.")))
+    broken = [o["name"] for o in failed if o["name"].startswith("Goat.Tie.C09.") and o["reason"].startswith("line ")]
+    ctx.extra["tie"] = dict(module=TIE_MODULE, extracted_defs=len(re.findall(r"^def ", text, re.M)),
+                            tie_theorems=len(ties), broken=broken)
+    ctx.evaluations += len(ties)
+    for b in broken:
+        ctx.log("tie broken: " + b)
+    return failed
+
+
+def _family(name):
+    if name.startswith("c_"):
+        return "corpus"
+    for pre in ("sa_", "sib_"):
+        if name.startswith(pre):
+            return pre[:-1]
+    return name[0]
+
+
+def _expectation(scen_lines):
+    """the `# expect 0=ok,1=data_0a tree a/ a/x=01` line of a scenario: ({tid: result}, tree line) or None"""
+    for l in scen_lines:
+        if l.startswith("# expect "):
+            w = l.split()
+            res = {}
+            for kv in w[2].split(","):
+                t, r = kv.split("=", 1)
+                res[t] = r.replace("_", " ")
+            return res, " ".join(["tree"] + w[4:])
+    return None
+
+
+def _complete(out_lines):
+    """every thread of the scenario ran to its end (the expectation is about finished operations)"""
+    st = [l for l in out_lines if l.startswith("status ")]
+    return bool(st) and all(x.endswith("=finished") for x in st[-1].split(" ", 1)[1].strip().split(","))
+
+
+def _expect_verdict(scen_lines, out_lines):
+    """evaluate a scenario's own expectation (what the property says, whatever the schedule) on one output stream"""
+    exp = _expectation(scen_lines)
+    if exp is None or not _complete(out_lines):
+        return ""
+    want, tree = exp
+    for l in out_lines:
+        w = l.split()
+        if len(w) >= 4 and w[0] in ("step", "auto") and w[2] == "done" and w[1] in want:
+            got = " ".join(w[3:])
+            if got != want[w[1]]:
+                return "thread %s: the operation answered `%s`, expected `%s` in every interleaving: %s" % (
+                    w[1], got, want[w[1]], l.strip())
+        if l.startswith("tree ") and l.strip() != tree.strip():
+            return "the final tree is `%s`, expected `%s` in every interleaving" % (l.strip(), tree.strip())
+    return ""
+
+
+def _squeeze(scen, model):
+    """drop the `step t` lines that only re-confirm that t is still blocked (120 ms each on the real side, no
+    change of state on either side: the driver answers `blocked` without stepping).  Returns the reduced
+    scenario and model blocks (the model output of the remaining lines is unchanged)."""
+    out_s, out_m = [], []
+    blocked = set()
+    groups = []             # model lines per scenario line that produces output
+    cur = None
+    for l in model:
+        if l.startswith("scenario ") or l.startswith("step ") or l.startswith("status "):
+            cur = [l]
+            groups.append(cur)
+        elif cur is not None:
+            cur.append(l)
+    gi = 0
+    for l in scen:
+        if l.startswith("#") or l.startswith("thread "):
+            out_s.append(l)
+            continue
+        if gi >= len(groups):
+            return scen, model
+        g = groups[gi]
+        gi += 1
+        if l.startswith("step "):
+            t = l.split()[1]
+            first = g[0].split()
+            if first[:2] != ["step", t]:
+                return scen, model
+            if first[2:] == ["blocked"] and t in blocked and len(g) == 1:
+                continue
+            if first[2:] == ["blocked"]:
+                blocked.add(t)
+            for a in g[1:]:
+                w = a.split()
+                if w and w[0] == "auto":
+                    (blocked.add if w[2:] == ["blocked"] else blocked.discard)(w[1])
+        out_s.append(l)
+        out_m += g
+    if gi != len(groups):
+        return scen, model
+    return out_s, out_m
+
+
 def _spec_verdict(model_lines, impl_lines):
     """does the implementation's own output of a scenario contradict a clause of the property?"""
     first = next(((a.strip(), b.strip()) for a, b in zip(model_lines, impl_lines) if a != b), None)
@@ -146,6 +309,9 @@ def _spec_verdict(model_lines, impl_lines):
 
 def _replays(ctx, go, model):
     n_gen = ctx.pick(420, 3000)
+    n_sa = -1       # shared-ancestor family: the whole enumeration (its 4-thread part is drawn by the seed in the
+                    # quick tier: 40 of 256 kind assignments per depth, 3 of 24 release orders; thorough: all)
+    n_sib = -1      # sibling family: the whole enumeration
     budget_blocked = ctx.pick(1300, 12000)     # total number of "blocked" confirmations (120 ms each)
     shards = 14
     ops = ctx.path("scen.ops")
@@ -155,9 +321,10 @@ def _replays(ctx, go, model):
                 if l.startswith("scenario "):
                     w = l.split()
                     l = " ".join(w[:2] + MODEL_VARIANT.split()) + "\n"
-                if l.strip() and not l.startswith("#"):
+                if l.strip() and (not l.startswith("#") or l.startswith("# expect ")):
                     h.write(l)
-    rc, err = ctx.run([go, "gen", str(n_gen)], stdout=ctx.path("gen.ops"))
+    rc, err = ctx.run([go, "gen", str(n_gen), str(n_sa), str(n_sib), str(ctx.pick(40, 256)), str(ctx.pick(3, 24))],
+                      stdout=ctx.path("gen.ops"))
     if rc != 0:
         ctx.fatal("scenario generator failed: " + err[-300:])
     with open(ops, "a") as h:
@@ -170,13 +337,26 @@ def _replays(ctx, go, model):
     if len(sb) != len(mb):
         ctx.fatal("model produced %d scenario blocks for %d scenarios" % (len(mb), len(sb)))
     chosen, dropped_amb, dropped_budget, blocked_total = [], 0, 0, 0
+    fam = collections.defaultdict(collections.Counter)
+    model_vs_spec = []
     for s, m in zip(sb, mb):
+        f = _family(s[0].split()[1])
+        fam[f]["generated"] += 1
         if any(l.startswith("ambiguous") or l.startswith("bad-op") for l in m):
             dropped_amb += 1
+            fam[f]["dropped_ambiguous"] += 1
             continue
+        if f in ("sa", "sib"):
+            s, m = _squeeze(s, m)
+        why = _expect_verdict(s, m)
+        if why:
+            model_vs_spec.append((s, m, why))
+        if _expectation(s) is not None and not _complete(m):
+            fam[f]["expectation_not_applicable_schedule_ends_early"] += 1
         nb = sum(1 for l in m if l.rstrip().endswith(" blocked"))
         if blocked_total + nb > budget_blocked and not s[0].split()[1].startswith("c_"):
             dropped_budget += 1
+            fam[f]["dropped_for_time"] += 1
             continue
         blocked_total += nb
         chosen.append((s, m, nb))
@@ -198,6 +378,7 @@ def _replays(ctx, go, model):
         procs.append((items, si, subprocess.Popen([go, "replay", so, sm], stdout=open(si, "wb"),
                                                   stderr=subprocess.PIPE, env=e)))
     mismatches = []
+    spec_fail = []
     steps = 0
     for items, si, p in procs:
         try:
@@ -222,7 +403,17 @@ def _replays(ctx, go, model):
             for k, v in kinds.items():
                 ctx.histogram[k] += v
             nontrivial = any(k.startswith("replay:park") or k == "replay:blocked" for k in kinds)
-            ctx.note_case("".join(s), nontrivial=nontrivial, kind="replay:scenario:" + ("corpus" if name.startswith("c_") else name[0]))
+            f = _family(name)
+            ctx.note_case("".join(s), nontrivial=nontrivial, kind="replay:scenario:" + f)
+            fam[f]["scenarios"] += 1
+            fam[f]["compared_lines"] += len(mm)
+            fam[f]["blocked_confirmations"] += kinds["replay:blocked"]
+            fam[f]["parks"] += sum(v for k, v in kinds.items() if k.startswith("replay:park"))
+            if _expectation(s) is not None and _complete(mm):
+                fam[f]["with_expectation"] += 1
+                why = _expect_verdict(s, im)
+                if why:
+                    spec_fail.append((s, mm, im, why))
             if len(ctx.samples) < 2 and nontrivial:
                 ctx.samples.append(dict(scenario=[x.strip() for x in s][:14], model=[x.strip() for x in mm][:14],
                                         impl=[x.strip() for x in im][:14]))
@@ -230,7 +421,18 @@ def _replays(ctx, go, model):
                 mismatches.append((s, mm, im))
     ctx.evaluations += steps
     ctx.extra["replay"] = dict(scenarios=len(chosen), dropped_ambiguous=dropped_amb, dropped_for_time=dropped_budget,
-                               blocked_confirmations=blocked_total, compared_lines=steps, shards=len(procs))
+                               blocked_confirmations=blocked_total, compared_lines=steps, shards=len(procs),
+                               families={k: dict(v) for k, v in sorted(fam.items())})
+    # the scenario's own expectation (every racing operation succeeds with its sequential result, the final tree is
+    # the union) evaluated on the implementation, and on the model
+    for s, mm, im, why in spec_fail[:3]:
+        ctx.violation("impl-vs-spec", "gated replay of the real memfs: " + why, lines=[x.rstrip("\n") for x in s],
+                      annotations=["impl: " + x.strip() for x in im if x.startswith("tree ") or " done " in x]
+                      + ["spec: " + next(x.strip() for x in s if x.startswith("# expect "))], concrete=True)
+    for s, m, why in model_vs_spec[:3]:
+        ctx.violation("impl-vs-model", "the lock-granular MODEL contradicts the expectation of a generated scenario "
+                      "(the model or the generator is wrong): " + why, lines=[x.rstrip("\n") for x in s], concrete=False)
+    ctx.extra["replay"]["expectation_failures"] = dict(impl=len(spec_fail), model=len(model_vs_spec))
     if any(l.rstrip().endswith("note deadlock") or l.startswith("note deadlock") for _, m, _ in chosen for l in m):
         ctx.extra["replay"]["scenarios_ending_in_model_deadlock"] = sum(
             1 for _, m, _ in chosen if any(l.startswith("note deadlock") for l in m))
@@ -246,7 +448,7 @@ def _replays(ctx, go, model):
             confirmed.append((s, mm2, im2))
         else:
             ctx.notes.append("a replay difference in scenario %s did not reproduce when replayed alone" % s[0].split()[1])
-    return confirmed
+    return confirmed, bool(spec_fail)
 
 
 def _report_replay(ctx, confirmed):
@@ -356,22 +558,48 @@ def _classify_races(ctx, blocks):
 
 
 def run(ctx):
-    failed = ctx.lean_obligations()
     go = ctx.build_go("memfsconc")
+    # ExtractedC09.lean belongs to the shared lake project: after a run against another tree (VERIF_REPO, mutants)
+    # leave it in the state of /repo, whatever happens in between (the text is computed up front: `fatal` removes
+    # the run directory and with it the harness binary)
+    restore = _leanfacts_text(ctx, go, "/repo") if ctx.repo != "/repo" else None
+    try:
+        _run(ctx, go)
+    finally:
+        if restore is not None:
+            _install_extracted(restore)
+
+
+def _run(ctx, go):
+    failed = _lean(ctx, go)
     model = ctx.build_model("m_memfsconc")
-    ctx.rule = ("(a) lock facts: %d functions of memfs, ordered list of lock operations and lock-taking calls; "
-                "(b) gated replays: corpus/C09 + generated scenarios (holder family: handle holder x directory toucher x "
-                "concurrent operation, exhaustive over 2x8x11; random family: 2-3 threads, 1-3 ops each on a 6-path pool, random "
-                "schedule) - compared per scheduling step and final tree; non-trivial = some goroutine parks at a yield point "
+    ctx.rule = ("(a) structure: lock facts of %d memfs functions (ordered list of lock operations and lock-taking calls) and the structural "
+                "tie: the synchronisation skeleton of every memfs function (go/ast -> Goat/Tie/ExtractedC09.lean: lock "
+                "operations, accesses to nodes/index/data/time, memfs calls, yield points, held-regions, control flow inside "
+                "them) compared by `decide` with the model's action table (Goat/Model/MemFSConcActs.lean) in the tie_* "
+                "theorems of Goat/Tie/C09.lean; "
+                "(b) gated replays: corpus/C09 + generated scenarios (holder family h: handle holder x directory toucher x "
+                "concurrent operation, exhaustive over 2x8x11; random family r: 2-3 threads, 1-3 ops each on a 6-path pool, random "
+                "schedule; shared-ancestor family sa: 2-4 threads, one mkdirall/write each below a missing common ancestor chain "
+                "of depth 1-3 (or the same path), all parked in memfs.mkdir.gap for the first missing ancestor, then released in "
+                "every order / round-robin / staircase - the whole enumeration for n<=3, for n=4 %s; sibling family sib: a fixture thread, then two threads with one operation each of {mkdirall, write new, "
+                "write existing, remove, removeall, copy file, copy dir, read, readdir} on siblings d/x, d/y, every ordered pair "
+                "of kinds x both starting threads x every pair of park positions a^k b^l a^* b^*, the whole enumeration) - compared "
+                "per scheduling step and final tree; sa/sib scenarios also carry the property's own expectation (every racing "
+                "operation succeeds with its sequential result, final tree = fixture + both effects) which is evaluated on the "
+                "implementation and on the model; non-trivial = some goroutine parks at a yield point "
                 "or blocks; distinct = distinct scenario text; (c) stress histories: 2..32 goroutines x 10..70 ops, GOMAXPROCS "
                 "1..16, Gosched injection 0/1/2 of 3 levels, zones: owned names in shared dirs, shared files, create races, "
                 "chaos zone x/ (removal of directories being written) - decided by the Lean monitor R0-R5; non-trivial = "
-                "history with successful mutations and errors; (d) the same stress under -race." % len(EXPECTED_FACTS))
+                "history with successful mutations and errors; (d) the same stress under -race."
+                % (len(EXPECTED_FACTS), ctx.pick("40 of 256 kind assignments per depth and 3 of 24 release orders drawn by "
+                                                 "the seed", "everything too")))
     concrete = False
     # (a) facts
     bad_facts = _facts(ctx, go)
     # (b) gated replays
-    confirmed = _replays(ctx, go, model)
+    confirmed, spec_failed = _replays(ctx, go, model)
+    concrete |= spec_failed
     if confirmed:
         concrete |= _report_replay(ctx, confirmed)
     # (c) stress + monitor
@@ -417,9 +645,19 @@ def run(ctx):
         ctx.violation("impl-vs-model", "the lock brackets of memfs are not the ones the model assumes:\n" + "\n".join(bad_facts),
                       concrete=concrete)
     if failed:
-        ctx.obligation_violations(failed, searcher=lambda: concrete)
+        # a tie theorem that fails at its own line names the critical section that moved; the other theorems of a
+        # module that did not compile are not evidence of anything by themselves
+        broken = [o for o in failed if o["name"].startswith("Goat.Tie.C09.") and o["reason"].startswith("line ")]
+        others = [o for o in failed if o not in broken and not o["reason"].startswith("module did not compile")]
+        if broken:
+            ctx.violation("obligation", "the synchronisation skeleton of memfs (go/ast, Goat/Tie/ExtractedC09.lean) is not "
+                          "the one the model's action table assumes (Goat/Model/MemFSConcActs.lean); tie theorems that no "
+                          "longer check:\n" + "\n".join("%s: %s" % (o["name"], o["reason"][:300]) for o in broken),
+                          theorem=broken[0]["name"], concrete=concrete)
+        if others or not broken:
+            ctx.obligation_violations(others or failed, searcher=lambda: concrete)
     if not ctx.quick():
-        ctx.leanchecker(["Goat.Props.C09"])
+        ctx.leanchecker(["Goat.Props.C09", TIE_MODULE])
         if any(not o["ok"] for o in ctx.obligations) and not failed:
             ctx.obligation_violations([o for o in ctx.obligations if not o["ok"]])
     ctx.assumptions += [
@@ -429,6 +667,10 @@ def run(ctx):
         "threads follow the discipline of no_deadlock: a thread requesting a file's data lock holds only handles on files with "
         "a smaller object id, and closes its handles before it ends",
         "paths reach memfs already reduced (ReduceAbsPath is sequential and pure: properties C01/C03)",
+        "distinct_paths_commute / distinct_paths_progress: the operations of a batch are pairwise independent (IndepOp; "
+        "in particular on pairwise unrelated paths), on non-empty paths, a copy's source and destination unrelated, no "
+        "stream handle is open, and the batch starts on a quiescent forest-shaped heap (the empty filespace, or the heap "
+        "a finished batch left: conclusion (4) of the theorem)",
     ]
     ctx.trusted_base += [
         "gate scheduler of harness/cmd/memfsconc (goroutine identification by runtime.Stack, 120 ms confirmation of 'blocked' "
@@ -436,8 +678,13 @@ def run(ctx):
         "history monitor rules R0-R5 (Driver/MemFSConc.lean) as the executable form of 'final tree = union of successful "
         "operations on distinct paths, reads see complete values, listings duplicate-free'",
         "go/ast lock facts are syntactic",
+        "the synchronisation skeletons of the structural tie (harness memfsconc leanfacts -> Goat/Tie/ExtractedC09.lean) are "
+        "syntactic: go/ast without type information, calls matched with the package's declarations by name and number of "
+        "arguments, held-regions computed per control path inside one function (a lock handed over between functions - the "
+        "stream handle - is stated in the action table, not extracted), guarded fields = nodes, index, data, time by name; "
+        "the expected side (Goat/Model/MemFSConcActs.lean: Act constructor -> Go function, lock, mode, skeleton) is hand-written",
     ]
-    zero = [k for k in ("replay:blocked", "stress:copy:ok", "stress:copy:err", "stress:stream:ok", "stress:remove:ok",
+    zero = [k for k in ("replay:blocked", "replay:scenario:sa", "replay:scenario:sib", "stress:copy:ok", "stress:copy:err", "stress:stream:ok", "stress:remove:ok",
                         "stress:removeall:ok", "stress:sread:data") if not ctx.histogram.get(k)]
     if zero:
         ctx.notes.append("coverage gap: no case of " + ", ".join(zero))
